@@ -126,6 +126,14 @@ CHECKS = {
           "E2 (vf/sv) is trusted as the reading of IEEE 1800 two-state semantics on the emitted subset; calibrated on the repo's own corpus; "
           "constant-only sub-expressions are kept out of the generator (type-checker folding, see C10).",
           "DESIGN.md 3/C03"),
+  "C20": ("exploration",
+          "property-based differential testing (Hypothesis): generated TinyRV0 programs x timing configurations run on ProcFL, ProcCL and ProcRTL against an independent ISA interpreter; checksum FL/CL/RTL against the docstring formula",
+          "Hazard-dense terminating programs over all ten TinyRV0 instructions (RAW at distance 1-3, load-use, store-load, taken/untaken "
+          "branches, nested loops, csr traffic) run in the repo's TestHarness under generated source/sink delays, memory latency and stall "
+          "probability; every level must deliver exactly the interpreter's proc2mngr sequence and leave the same 1 MB memory image.",
+          "The interpreter and assembler (vf/ref/tinyrv0.py) are written from tinyrv0-isa.md and validated on the repo's directed tests' "
+          "hand-written expectations; xcel CSRs are excluded; liveness beyond the cycle bound is inconclusive.",
+          "DESIGN.md 3/C20"),
 }
 
 NOT_YET = {}
